@@ -10,6 +10,7 @@ import PartituraModel.Props.C09
 import PartituraModel.Proofs.C09LayoutChain
 import PartituraModel.Proofs.C09LayoutVolta
 import PartituraModel.Proofs.C09LayoutRep
+import PartituraModel.Proofs.C09Nav
 
 namespace C09
 open Model.Unfold
@@ -136,9 +137,6 @@ theorem voltas_numbers_layout (pre post : Bool) (k : Nat) (asg : List Nat) (ts :
       some (mvGraph pre k post asg (tyAt ts) (fun i => (ts.getD i 0, ts.getD (i + 1) 0))) :=
   mv_mkSegments pre k post asg ts hs hlen hk hk10 hasg hN9 hlast hsurj ha
 
-theorem tyAt_ne (ts : List Int) (i : Nat) : tyAt ts i ≠ SegType.leapStart := by
-  unfold tyAt; split <;> simp
-
 /-- … hence for the segment graph the code builds from such a part: the maximal unfolding plays the section once
 per number, taking on pass n the bracket that carries number n; the minimal one plays it once with the last
 bracket. -/
@@ -204,23 +202,67 @@ theorem repeats_terminate (L : Layout) (hL : RepeatsOnly L) (nr ar il : Bool) :
   obtain ⟨ps, h4⟩ := repForm_terminates g h3 h2 nr ar il
   exact ⟨g, ps, h1, h3, h4⟩
 
--- non-vacuity: a repeat nested in another one that shares its end
-example : RepeatsOnly { first := 0, last := 16, repeats := [(0, 12), (4, 12)] } ∧
-    ((mkSegments { first := 0, last := 16, repeats := [(0, 12), (4, 12)] }).bind fun g => getPaths g false true true 16) =
-      some [[0, 1, 1, 2]] := by
+-- non-vacuity: a repeat nested in another one
+example : RepeatsOnly { first := 0, last := 16, repeats := [(0, 16), (4, 12)] } ∧
+    ((mkSegments { first := 0, last := 16, repeats := [(0, 16), (4, 12)] }).bind fun g => getPaths g false true true 16) =
+      some [[0, 1, 1, 2, 0, 1, 1, 2]] := by
   refine ⟨⟨rfl, rfl, rfl, rfl, rfl, rfl, rfl, by decide, ?_⟩, by decide⟩
   intro r hr
   simp only [List.mem_cons, List.not_mem_nil, or_false] at hr
   rcases hr with rfl | rfl <;> decide
 
-/-- Outside the class the enumeration need not terminate.  Da capo in the MIDDLE of a part that starts at time 0
-(likewise dal segno to a segno at the start): `add_segments` builds `A.to = [B, A]` with `A` a leap destination
-but not a leap start, and the minimal enumeration (which always takes the LAST destination) goes from A to A
-for ever — for every amount of fuel the model fails (the code raises IndexError after 100 rounds, because it
-looks the last used destination up in `destinations * 100`). -/
+/-- Outside the class the enumeration need not terminate.  Hand-made table (it is the one `add_segments` built,
+before the repair fixes/C09-6, for a da capo in the MIDDLE of a part that starts at time 0, likewise for a dal
+segno to a segno at the start): `A.to = [B, A]` with `A` a leap destination but not a leap start.  The minimal
+enumeration (which always takes the LAST destination) goes from A to A for ever — for every amount of fuel the
+model fails (the code raised IndexError after 100 rounds, because it looks the last used destination up in
+`destinations * 100`). -/
 theorem enumeration_may_not_terminate (il : Bool) (fuel : Nat) :
-    mkSegments { first := 0, last := 12, dacapos := [4] } = some dcMidGraph ∧
     getPaths dcMidGraph true false il fuel = none :=
-  ⟨by decide, dcMid_no_minimal il fuel⟩
+  dcMid_no_minimal il fuel
+
+-- with the repaired order of destinations (the jump back first, the continuation after it) the part that
+-- produced that table unfolds: minimal A-B, maximal A-A-B
+example :
+    ((mkSegments { first := 0, last := 12, dacapos := [4] }).bind fun g => getPaths g true false true 10) = some [[0, 1]] ∧
+    ((mkSegments { first := 0, last := 12, dacapos := [4] }).bind fun g => getPaths g false true true 10) = some [[0, 0, 1]] := by
+  decide
+
+/-! ## navigation marks: the standard forms over symbolic times (repaired behaviour, fixes/C09-6, C09-7) -/
+
+/-- The enumeration looks only at destinations, awaiting destinations and types: erasing the times of a segment
+table does not change the paths. -/
+theorem paths_independent_of_times (g : List Seg) (nr ar il : Bool) (fuel : Nat) :
+    getPaths (eraseTimes g) nr ar il fuel = getPaths g nr ar il fuel :=
+  getPaths_erase g nr ar il fuel
+
+/-- D.C. al Fine: Fine at `f`, Da Capo at the end `e` of a part that starts at 0, any `0 < f < e`: the maximal
+unfolding is "all, then from the start to the Fine", the minimal one plays everything once. -/
+theorem dacapo_al_fine (f e : Int) (h0 : 0 < f) (hfe : f < e) (il : Bool) :
+    ((mkSegments (dcFineLayout f e)).bind fun g => getPaths g false true il 8) = some [[0, 1, 0]] ∧
+    ((mkSegments (dcFineLayout f e)).bind fun g => getPaths g true false il 8) = some [[0, 1]] := by
+  rw [dcFine_mkSegments f e h0 hfe]
+  exact dcFine_paths f e il
+
+/-- D.C. al Coda: To Coda at `a`, Da Capo and Coda at `b`, any `0 < a < b < e`: maximal "up to the Da Capo, from the
+start to To Coda, coda" (A-B-A-C), minimal straight through (A-B-C); exactly these two variants. -/
+theorem dacapo_al_coda (a b e : Int) (h0 : 0 < a) (hab : a < b) (hbe : b < e) (il : Bool) :
+    ((mkSegments (dcCodaLayout a b e)).bind fun g => getPaths g false true il 8) = some [[0, 1, 0, 2]] ∧
+    ((mkSegments (dcCodaLayout a b e)).bind fun g => getPaths g true false il 8) = some [[0, 1, 2]] ∧
+    ((mkSegments (dcCodaLayout a b e)).bind fun g => getPaths g false false il 8) = some [[0, 1, 0, 2], [0, 1, 2]] := by
+  rw [dcCoda_mkSegments a b e h0 hab hbe]
+  exact dcCoda_paths a b e il
+
+/-- D.S. al Coda: Segno at `s`, To Coda at `a`, Dal Segno and Coda at `b`, any `0 < s < a < b < e`: maximal
+"up to the Dal Segno, from the sign to To Coda, coda" (A-B-C-B-D), minimal straight through. -/
+theorem dalsegno_al_coda (s a b e : Int) (h0 : 0 < s) (hsa : s < a) (hab : a < b) (hbe : b < e) (il : Bool) :
+    ((mkSegments (dsCodaLayout s a b e)).bind fun g => getPaths g false true il 10) = some [[0, 1, 2, 1, 3]] ∧
+    ((mkSegments (dsCodaLayout s a b e)).bind fun g => getPaths g true false il 10) = some [[0, 1, 2, 3]] := by
+  rw [dsCoda_mkSegments s a b e h0 hsa hab hbe]
+  exact dsCoda_paths s a b e il
+
+-- non-vacuity
+example : ((mkSegments (dsCodaLayout 4 12 16 24)).bind fun g => getPaths g false true true 10) = some [[0, 1, 2, 1, 3]] :=
+  (dalsegno_al_coda 4 12 16 24 (by decide) (by decide) (by decide) (by decide) true).1
 
 end C09
